@@ -160,7 +160,7 @@ CHECKS = {
 
 # Extensions made after independently seeded changes (DESIGN.md §12.20-§12.24, §13); appended to the level text.
 ADDENDA = {
-    "C01": "Extended: hosted did:web issuers; key-history grid on a second node (did:nuts + did:web; v1 key1, v2 +key2, v3 -key1, deactivated) at validation times inside the recorded version intervals; credentialStatus arrays over an alphabet of entries (unusable lists, other purposes, unknown types); re-verification after list re-issue and node restart.",
+    "C01": "Extended: hosted did:web issuers; key-history grid on a second node (did:nuts + did:web; v1 key1, v2 +key2, v3 -key1, deactivated) at validation times inside the recorded version intervals; credentialStatus arrays over an alphabet of entries (unusable lists, other purposes, unknown types); re-verification after list re-issue and node restart. Round 5: validity-window grid (harness-signed ldp/jwt VPs and VCs and wallet-built VPs with start/end from Go zero time, epoch, past, future, year 9999, absent; four validation times x three routes; valid outside the window = violation); revocation-lookup faults on a did:nuts node with network revocations (store lookup failing at a hook in five ways incl. the real store closed, six routes) and issuer-document faults (seven ways).",
     "C02": "Extended: late replay in the skew tail, scope lists, backdated over-long validity, audiences that extend/truncate/re-case this server's identifier, two-presentation assertions (accepted controls, 10 defects on the mapped or the other presentation, both orders). Round 5: OpenID4VP wallet-response leg - the real authorization-code flow runs until the node's own wallet posts to the verifier's direct_post endpoint, the proxy withholds that post and the harness plays the wallet (did:jwk holders, jwt_vp and ldp_vp over the session's real nonce/state): 3 controls and 72 distinct single defects (nonce/state of another, finished or unknown session, audience, signer != subject, non-matching or revoked/expired credential, forged/permuted/empty descriptor map, tampered signatures, other subject's endpoint, second use, two-presentation arrays in both orders), one fresh session each; a defective response must never lead to a token at the token endpoint or a token-store write.",
     "C03": "Extended: private half of every held key family x 5 header forms x 12 signing entry points; kid life-cycle programs (create, warm up, re-point by Link/New/Delete also inside committed and rolled-back SQL transactions, use again) on two key stores with a harness-kept designation table.",
     "C04": "Extended: hostile path-parameter values on parameterised routes in every tier, deferred calibration judgement. Round 5: presentation sequences (short-lived tokens presented repeatedly while valid, failing credentials derived from a just-accepted one, six presentations after expiry on a monotonic stopwatch) and 12 listener configurations (http.internal.address empty/blank/unset/:0/no port via env, file, flag) booted through cmd.Execute with the public listener probed.",
